@@ -687,6 +687,39 @@ def gen_round5(rng):
     return out
 
 
+def gen_round6(rng):
+    """headers out before a file body is put; statuses without body and HTTP/1.0 requests answered in pieces; a handler that
+    calls write() itself"""
+    out = []
+    h1 = b"GET /a HTTP/1.1\r\nHost: example.test\r\n\r\n"
+    h2 = b"GET /b HTTP/1.1\r\nHost: example.test\r\n\r\n"
+    second = hexs(h2) + " - cl - " + plan(200, [], "t", gspec(rng, 4, 2))
+    n = rng.choice([0, 1, 20, 16000, 16001, 40000])
+    pre = rng.choice(["-", "x" + b"pre:".hex(), gspec(rng, rng.choice([1, 7, 300]))])
+    out.append("xchg " + req(b"GET", b"/pf", "SF", rheaders(rng, 1), "n") + " " + plan(rng.choice([200, 201]), rheaders(rng, 1), "F", pre, gspec(rng, n) if n else "-"))
+    k = min(n, 3000)
+    out.append("raw %s 2 %s - cl - %s %s" % (rng.choice("sp"), hexs(h1), plan(200, [], "F", pre, gspec(rng, k) if k else "-"), second))
+    # no body, no framing
+    code = rng.choice([204, 304, 199])
+    if code != 199:
+        out.append("xchg " + req(b"GET", b"/nb", "SF", [], "n") + " " + plan(code, rheaders(rng, 1), "w", "-", "1"))
+    out.append("raw %s 2 %s - cl - %s %s" % (rng.choice("sp"), hexs(h1), plan(code, rheaders(rng, 1), "w", "-", "1"), second))
+    # HTTP/1.0: no chunks, the connection ends the message
+    m = rng.choice([0, 5, 700, 20000])
+    for first in (b"GET /w HTTP/1.0\r\nHost: example.test\r\n\r\n", b"GET /w HTTP/1.0\r\nHost: example.test\r\nConnection: keep-alive\r\n\r\n"):
+        out.append("raw s 2 %s - cl - %s %s" % (hexs(first), plan(200, rheaders(rng, 1), "w", gspec(rng, m) if m else "-", str(rng.randrange(1, 300))), second))
+    out.append("raw s 2 %s - cl - %s %s" % (hexs(b"GET /w HTTP/1.0\r\nConnection: Keep-Alive\r\n\r\n"), plan(200, [], "F", pre, gspec(rng, k) if k else "-"), second))
+    # the handler calls write() itself
+    b = gspec(rng, rng.choice([0, 5, 700, 128001]))
+    out.append("xchg " + req(b"GET", b"/tw", "SF", [], "n") + " " + plan(rng.choice([200, 404]), rheaders(rng, 1), "B", b))
+    out.append("raw %s 2 %s - cl - %s %s" % (rng.choice("sp"), hexs(h1), plan(200, rheaders(rng, 1), "B", gspec(rng, rng.choice([0, 5, 700]))), second))
+    # a field name that is no token (blank or tab before the colon, empty, a control character): the header block ends there (C09's 9bf376e)
+    line = rng.choice([b"Content-Length : 5", b"Content-Length\t: 5", b": v", b"X\x01Y: v", b"X-A B: v", b"X\x7f: v"])
+    bad = b"POST /t HTTP/1.1\r\nHost: example.test\r\n" + line + b"\r\n\r\n"
+    out.append("raw s 2 %s x68656c6c6f cl - %s %s" % (hexs(bad), plan(200, [], "t", gspec(rng, 4, 2)), second))
+    return out
+
+
 def gen_expect(rng):
     """Expect: 100-continue: the server's interim answer must not be taken for the response"""
     out = []
@@ -810,6 +843,7 @@ def gen(rng, tier):
         cases += [[l] for l in gen_upload_again(rng)]
         cases += [[l] for l in gen_chunked_put(rng)]
         cases += [[l] for l in gen_round5(rng)]
+        cases += [[l] for l in gen_round6(rng)]
     cases += gen_long_lines(rng)
     for _ in range(4 if quick else 40):
         cases.append(gen_upload(rng))
@@ -897,7 +931,7 @@ def distribution(cases):
                     nh = int(t[j][1:])
                     kind = t[j + 1 + 2 * nh]
                     key = {"n": "plan:none", "b": "plan:bytes/text", "t": "plan:bytes/text", "j": "plan:json", "f": "plan:file",
-                           "s": "plan:stream", "S": "plan:stream", "w": "plan:stream", "W": "plan:stream", "m": "plan:file", "r": "plan:redirect", "R": "plan:redirect"}.get(kind)
+                           "s": "plan:stream", "S": "plan:stream", "w": "plan:stream", "W": "plan:stream", "F": "plan:stream", "B": "plan:bytes/text", "m": "plan:file", "r": "plan:redirect", "R": "plan:redirect"}.get(kind)
                     if key:
                         branch[key] += 1
             if t[0] in ("xchg", "cwire", "big"):
@@ -967,9 +1001,12 @@ LEVEL_TEXT = ("Proved in Lean 4 about the executable model AslModel.HttpFrame (t
               "dictionary; continue_skipped — a response after the interim 100 Continue is read as if alone; empty_header_kept — a header "
               "that travels with an empty value is stored (present, empty) by the reader; chunked_request_roundtrip — a client asked "
               "to send chunked sends no length, chunks of the send block and the last chunk, and the server reads exactly its body; "
-              "auto_stream_roundtrip — a handler that writes its response in pieces and names neither a length nor a coding: the "
-              "library announces Transfer-Encoding: chunked, sends the pieces as chunks and ends the stream, the client returns exactly "
-              "the parts; chunked_put_roundtrip — a handler that asks for the chunked coding and put()s its body: no Content-Length goes out, the "
+              "auto_stream_roundtrip — a handler that answers an HTTP/1.1 request in pieces, with a status that can have a body, and "
+              "names neither a length nor a coding: the library announces Transfer-Encoding: chunked, sends the pieces as chunks and "
+              "ends the stream, the client returns exactly the parts; bodyless_stream_plain / http10_stream_raw — a 1xx/204/304 sent "
+              "that way is its header block alone, and to an HTTP/1.0 request the pieces go out as they are under Connection: close "
+              "(the library then closes the connection: serveStep_exact / keepalive_seq carry the hypothesis NotClosedByStream, an "
+              "HTTP/1.0 request is not answered by such a stream); chunked_put_roundtrip — a handler that asks for the chunked coding and put()s its body: no Content-Length goes out, the "
               "body goes in chunks and the library ends it with the last chunk, the client returns exactly code, dictionary and body; "
               "suffix_range_spec — Range: bytes=-k is the last k bytes; redirect_target_rfc3986 / redirect_target_absolute — the URL "
               "the client goes to for a redirection is the Location itself when it has a scheme and else its resolution against the "
@@ -1006,9 +1043,13 @@ LEVEL_NOTE = ("Trusted: Lean kernel; the regex translator of the two block-size 
               "model, serveStep): chunk-size lines of 9 digits are generated (framing flag q) and compared; Content-Length with a sign, "
               "other characters or more than 10 digits and chunk-size lines with a sign are not generated here (C09 does). Hypotheses of the theorems: as stated above; user headers name neither Content-Length nor "
               "Transfer-Encoding; sizes below 2^31 (int). Deviation of asl recorded, not a defect of this property as worded: truncated "
-              "requests are dropped. Known findings: range-end-zero, chunked-stream-not-terminated. Twenty-three defects of this property were "
-              "repaired (fixed: lines); eighteen of them were found by audits / defect hunts, not by this check, and the check was "
-              "extended until it catches each on the pre-fix tree with a concrete replay (fifth hunt: a response written in pieces "
+              "requests are dropped. Known findings: range-end-zero, chunked-stream-not-terminated. Twenty-seven defects of this property were "
+              "repaired (fixed: lines); twenty-two of them were found by audits / defect hunts, not by this check, and the check was "
+              "extended until it catches each on the pre-fix tree with a concrete replay (review of the fifth round's repairs: put(File) "
+              "after the headers were out never ended the library's own chunks — plan kind F; 204/304 and HTTP/1.0 answers written "
+              "in pieces got chunk framing — such statuses and HTTP/1.0 raw peers generated, the raw peer reads a close-delimited "
+              "message to the end of the connection; put() + write() by the handler sent the body twice — plan kind B, each with a "
+              "second exchange on the connection; fifth hunt: a response written in pieces "
               "without a framing header was never announced as chunked — plan kinds w (write(part)) and W (the handler's own "
               "writeFile) seen by the real client and byte for byte by raw peers; the server replaced a handler's Content-Type / Date "
               "on a file body — such headers generated, Date canonicalised only when it is a time stamp; the 404 for a missing file "
@@ -1029,7 +1070,8 @@ LEVEL_NOTE = ("Trusted: Lean kernel; the regex translator of the two block-size 
               "of xchg now does); a header with an empty value was dropped by the reader (the model had the same "
               "setHeader and the generator produced no empty values). The model follows C09's repairs of the shared reader "
               "(obs-fold 350c8ee, Content-Length 00 d626376, Transfer-Encoding compared case-insensitively / last coding 7dcf721, "
-              "chunk-size line validation 4dbedbe, CRLF required after chunk data d0ace7d, a request whose transfer coding does not end in chunked is refused 4dff910 (hypothesis "
+              "chunk-size line validation 4dbedbe, CRLF required after chunk data d0ace7d, a field name that is no token (blank or tab before the colon, empty, control character) ends the header block 9bf376e "
+              "(WFName now asks for bytes above 0x20 other than DEL), a request whose transfer coding does not end in chunked is refused 4dff910 (hypothesis "
               "CodingOk of wire_request_exact: a coding, if named, ends in chunked), no handler call once the reader gave the "
               "connection up 5314fb5 — the last one was missing in the model until the q framing flag produced such input).")
 
@@ -1170,18 +1212,24 @@ def _ref_xchg(t):
             cs[cap(n)] = v
         if len(cs) != len(ph) or any(not v for v in cs.values()):
             return None
-        if code == 405 and pk not in ("s", "w", "W"):   # a streaming handler has sent its headers before serve() could add Allow
+        if code == 405 and pk not in ("s", "w", "W", "F"):   # a streaming handler has sent its headers before serve() could add Allow
             cs[b"Allow"] = METHODS_TEXT
         body = b""
         if pk == "n":
             cs[b"Content-Length"] = b"0"
-        elif pk in ("b", "t"):
+        elif pk in ("b", "t", "B"):
+            # B: the handler calls write() itself after put(): the same message, once
             body = body_of(pargs[0])
             cs[b"Content-Length"] = b"%d" % len(body)
-        elif pk in ("s", "w", "W"):
-            # w / W: written in pieces with no framing header: the library announces the chunked coding itself (75c75d0)
-            body = body_of(pargs[0])
-            cs[b"Transfer-Encoding"] = b"chunked"
+        elif pk in ("s", "w", "W", "F"):
+            # w / W / F: written in pieces with no framing header: the library announces the chunked coding itself (75c75d0),
+            # F: a first piece (or the headers alone), then put(File)
+            body = body_of(pargs[0]) + (body_of(pargs[1]) if pk == "F" else b"")
+            if pk != "s" and (code < 200 or code in (204, 304)):
+                if body:
+                    return None              # a status without body
+            else:
+                cs[b"Transfer-Encoding"] = b"chunked"
         elif pk == "m":
             # put(File) of a missing file
             code = 404
